@@ -804,22 +804,6 @@ pub proof fn lemma_unescape_skip(z: Seq<u8>, from: int)
     }
 }
 
-/// helper of normalisation N13: equality of byte slices (verified)
-pub fn bytes_eq(a: &[u8], b: &[u8]) -> (r: bool)
-    ensures r == (a@ == b@)
-{
-    if a.len() != b.len() { return false; }
-    let mut i = 0;
-    while i < a.len()
-        invariant i <= a@.len(), a@.len() == b@.len(), forall|j: int| 0 <= j < i ==> a@[j] == b@[j],
-        decreases a@.len() - i
-    {
-        if a[i] != b[i] { return false; }
-        i = i + 1;
-    }
-    proof { assert(a@ =~= b@); }
-    true
-}
 
 /// XML 1.0 4.6: the five predefined entities
 pub open spec fn xml_entity(p: Seq<u8>) -> Option<Seq<u8>> {
